@@ -256,6 +256,47 @@ func rtGuard() {
 	}
 }
 
+var (
+	earlyMu   sync.Mutex
+	earlySeen = map[string]bool{}
+)
+
+// earlyFindings appends the first finding of each signature to oracle.partial.jsonl (the file checklib reads when the
+// harness is killed by its time limit) as soon as a child has delivered it - the merged results go through hx only
+// after the whole sequential part, which a harness that is being slowed down by crashes or hangs may never reach.
+// (hx truncates the file when it streams its own first finding; by then these findings are on their way through hx.)
+func earlyFindings(dir string, j job, res *rec) {
+	if res == nil || len(res.Fails) == 0 {
+		return
+	}
+	earlyMu.Lock()
+	defer earlyMu.Unlock()
+	var ops []string
+	if strings.HasPrefix(j.Desc, "seq ") {
+		ops = strings.Split(strings.TrimPrefix(j.Desc, "seq "), " | ")
+	} else {
+		ops = []string{j.Desc}
+	}
+	for _, f := range res.Fails {
+		sig, _ := json.Marshal(f.Signature)
+		if earlySeen[string(sig)] {
+			continue
+		}
+		earlySeen[string(sig)] = true
+		b, err := json.Marshal(struct {
+			hx.Finding
+			Ops []string `json:"ops"`
+		}{f, ops})
+		if err != nil {
+			continue
+		}
+		if pf, err := os.OpenFile(filepath.Join(dir, "oracle.partial.jsonl"), os.O_CREATE|os.O_WRONLY|os.O_APPEND, 0o644); err == nil {
+			pf.Write(append(b, '\n')) //nolint:errcheck
+			pf.Close()
+		}
+	}
+}
+
 // runChild runs one child over jobs; it returns the results it delivered, the indices that had begun but not finished
 // when it died, and its stderr (empty if it exited normally).
 func runChild(dir string, seq int, jobs []job, par int, unit time.Duration) (done map[int]*rec, open []int, stderr string) {
@@ -331,7 +372,22 @@ func runChunk(dir string, seq *int, part []job, par int, unit time.Duration) []*
 	for i := range todo {
 		todo[i] = i
 	}
+	deaths := 0
 	for len(todo) > 0 {
+		if deaths >= 8 {
+			// the code under test keeps killing the process (each death is recorded as a finding with its case as
+			// replay): the rest of the chunk is not run any more
+			for _, i := range todo {
+				r := newRec()
+				for _, l := range strings.Split(strings.TrimPrefix(part[i].Desc, "seq "), " | ") {
+					r.Line(l, "not-run")
+				}
+				r.Count("not-run-after-8-process-deaths")
+				results[i] = r
+			}
+
+			break
+		}
 		sub := make([]job, len(todo))
 		for k, i := range todo {
 			sub[k] = part[i]
@@ -340,21 +396,37 @@ func runChunk(dir string, seq *int, part []job, par int, unit time.Duration) []*
 		done, open, stderr := runChild(dir, *seq, sub, par, unit)
 		for k, res := range done {
 			results[todo[k]] = res
+			earlyFindings(dir, sub[k], res)
 		}
 		if stderr == "" {
 			break
 		}
+		deaths++
+		// the jobs that were running when the child died: each alone in a child of its own, eight children at a time
 		culprit := false
+		var cmu sync.Mutex
+		var cwg sync.WaitGroup
+		csem := make(chan struct{}, 8)
 		for _, k := range open {
 			*seq++
-			d1, _, e1 := runChild(dir, *seq, []job{sub[k]}, 1, unit)
-			if e1 != "" {
-				results[todo[k]] = crashed(sub[k], e1, true)
-				culprit = true
-			} else if d1[0] != nil {
-				results[todo[k]] = d1[0]
-			}
+			cwg.Add(1)
+			csem <- struct{}{}
+			go func(k, own int) {
+				defer cwg.Done()
+				defer func() { <-csem }()
+				d1, _, e1 := runChild(dir, own, []job{sub[k]}, 1, unit)
+				cmu.Lock()
+				defer cmu.Unlock()
+				if e1 != "" {
+					results[todo[k]] = crashed(sub[k], e1, true)
+					culprit = true
+				} else if d1[0] != nil {
+					results[todo[k]] = d1[0]
+				}
+				earlyFindings(dir, sub[k], results[todo[k]])
+			}(k, *seq)
 		}
+		cwg.Wait()
 		if !culprit {
 			if len(open) > 0 {
 				results[todo[open[0]]] = crashed(sub[open[0]], stderr, false)
